@@ -104,7 +104,7 @@ def _impl_worker(args):
             out.append(["ok", mod.run_impl(c)])
         except BaseException as e:  # harness bug or unexpected escape
             out.append(["harness-exc", type(e).__name__ + ": " + str(e)[:300] + " @ " + traceback.format_exc()[-600:]])
-    return out
+    return os.getpid(), out
 
 
 def run_impl_all(mod, cases, workers=12):
@@ -117,11 +117,86 @@ def run_impl_all(mod, cases, workers=12):
     for i in range(0, len(cases), k):
         chunks.append((mod.__name__, cases[i : i + k]))
     res = []
+    LAST_HISTORY.clear()
+    per_proc = {}
     with cf.ProcessPoolExecutor(max_workers=workers) as ex:
-        for r in ex.map(_impl_worker, chunks):
+        for (wpid, r), (_, chunk) in zip(ex.map(_impl_worker, chunks), chunks):
+            # a worker process runs its chunks one after the other, in submission order: what ran before a case in
+            # the same interpreter is its history (state the library keeps across calls can only come from there)
+            seen = per_proc.setdefault(wpid, [])
+            for j in range(len(chunk)):
+                LAST_HISTORY[len(res) + j] = (wpid, len(seen) + j)
+            seen.extend(chunk)
             res.extend(r)
+    LAST_HISTORY["procs"] = per_proc
     # round trip through JSON so that tuples/lists compare equal with model obs
     return json.loads(json.dumps(res))
+
+
+LAST_HISTORY = {}
+
+
+def history_of(index):
+    """the cases that ran before case number `index` of the last run_impl_all in the same interpreter"""
+    h = LAST_HISTORY.get(index)
+    if not h:
+        return []
+    return list(LAST_HISTORY["procs"][h[0]][: h[1]])
+
+
+def run_history(mod, cases):
+    """run the cases one after the other in ONE fresh interpreter; returns the observation of the last one"""
+    code = (
+        "import sys,json,os; sys.path.insert(0,%r); sys.path.insert(0,%r); sys.path.insert(0,%r);"
+        "import logging; logging.disable(logging.CRITICAL);"
+        "import importlib; m=importlib.import_module(%r);"
+        "cs=json.loads(sys.stdin.read()); r=None\n"
+        "for c in cs:\n"
+        "    try: r=['ok', m.run_impl(c)]\n"
+        "    except BaseException as e: r=['harness-exc', repr(e)[:300]]\n"
+        "print('\\n@@RESULT@@'+json.dumps(r))"
+    ) % (VERIF + "/harness", VERIF + "/harness/props", REPO, mod.__name__)
+    env = dict(os.environ, PYTHONHASHSEED="0", PYTHONPATH=REPO)
+    p = subprocess.run([PY, "-c", code], input=json.dumps(cases), capture_output=True, text=True, env=env, timeout=1800)
+    for line in p.stdout.splitlines():
+        if line.startswith("@@RESULT@@"):
+            return json.loads(line[len("@@RESULT@@"):])
+    return ["harness-exc", (p.stderr or p.stdout)[-800:]]
+
+
+def history_violates(mod, hist, case, sig):
+    r = run_history(mod, list(hist) + [case])
+    if r[0] != "ok":
+        return False
+    try:
+        return any(mod.signature(case, x) == sig for x in mod.oracle(case, r[1]))
+    except Exception:
+        return False
+
+
+def shrink_history(mod, hist, case, sig, budget=40):
+    """delta-debugging light: drop halves, quarters, ... of the history while the last case still violates"""
+    cur = list(hist)
+    n = 2
+    steps = 0
+    while len(cur) >= 1 and steps < budget:
+        size = max(1, len(cur) // n)
+        dropped = False
+        for i in range(0, len(cur), size):
+            cand = cur[:i] + cur[i + size:]
+            steps += 1
+            if steps > budget:
+                break
+            if history_violates(mod, cand, case, sig):
+                cur = cand
+                n = max(2, n - 1)
+                dropped = True
+                break
+        if not dropped:
+            if size == 1:
+                break
+            n = min(len(cur), n * 2)
+    return cur
 
 
 def _run_one_isolated(args):
@@ -361,7 +436,11 @@ def shrink_case(mod, case, still_bad, budget=150):
     improved = True
     while improved and steps < budget:
         improved = False
-        for cand in mod.shrink(cur):
+        try:
+            cands = list(mod.shrink(cur))
+        except Exception:
+            break          # a plugin's shrinker that cannot handle this case kind must not hide the verdict
+        for cand in cands:
             steps += 1
             if steps >= budget:
                 break
@@ -380,7 +459,7 @@ def evaluate(mod, cases, runner, want_model=True):
     impl = run_impl_all(mod, cases)
     model = run_model_all(mod, cases, runner) if (want_model and runner) else [None] * len(cases)
     out = []
-    for c, i, m in zip(cases, impl, model):
+    for idx, (c, i, m) in enumerate(zip(cases, impl, model)):
         viol = []
         if i[0] == "ok":
             try:
@@ -395,7 +474,8 @@ def evaluate(mod, cases, runner, want_model=True):
                 agree = True    # declared don't-care for the model (host leniency outside the modelled grammar)
             else:
                 agree = (i[0] == "ok" and m[0] == "ok" and cmpf(i[1]) == m[1])
-        out.append({"case": c, "impl": i, "model": m, "agree": agree, "violations": viol})
+        out.append({"case": c, "impl": i, "model": m, "agree": agree, "violations": viol,
+                    "history": (history_of(idx) if (viol and not getattr(mod, "ISOLATE", False)) else [])})
     return out
 
 
@@ -562,11 +642,23 @@ def main(argv):
             rr = evaluate(mod, [c], None, want_model=False)[0]
             return any(mod.signature(c, x) == sig for x in rr["violations"])
 
-        small = shrink_case(mod, r["case"], still_bad)
+        hist = []
+        alone = False
+        try:
+            alone = still_bad(r["case"])
+        except Exception:
+            pass
+        if not alone and r.get("history") and history_violates(mod, r["history"], r["case"], sig):
+            # the input violates the property only after other calls in the same interpreter: the replay is that history
+            hist = shrink_history(mod, r["history"], r["case"], sig)
+            small = r["case"]
+        else:
+            small = shrink_case(mod, r["case"], still_bad)
         rr = evaluate(mod, [small], runner)[0]
-        path = write_replay(pid, "failing-input", {
-            "case": small, "violation": v, "signature": sig, "impl_observed": rr["impl"],
+        path = write_replay(pid, "failing-history" if hist else "failing-input", {
+            "case": small, "history": hist, "violation": v, "signature": sig, "impl_observed": rr["impl"],
             "model_says": rr["model"], "other_new_violations": len(new_viol) - 1,
+            "reproduces_alone": alone or not hist,
             "how": "./check %s --replay <this file>" % pid})
         replay_paths.append(path)
         lines.append("VIOLATION property=%s replay=%s" % (pid, path))
@@ -634,6 +726,16 @@ def replay(mod, path):
         print("replay names no input: %s" % json.dumps(d.get("no_longer_checks"))[:2000])
         print("re-run the check itself to see whether the obligation still fails")
         return 2
+    if d.get("history"):
+        # the input fails only after these earlier calls in the same interpreter
+        last = run_history(mod, list(d["history"]) + [case])
+        viol = list(mod.oracle(case, last[1])) if last[0] == "ok" else []
+        print(json.dumps({"history_length": len(d["history"]), "case": case, "impl": last, "violations": viol}, indent=1)[:6000])
+        if viol:
+            print("VIOLATION property=%s replay=%s" % (mod.PID, path))
+            return 1
+        print("replay: property holds on this history now")
+        return 0
     r = evaluate(mod, [case], runner)[0]
     print(json.dumps({"case": case, "impl": r["impl"], "model": r["model"], "agree": r["agree"], "violations": r["violations"]}, indent=1)[:6000])
     if r["violations"]:
